@@ -28,7 +28,7 @@ let config_of_string (s : string) : config =
                   | _ -> failwith "cleanup")
         | _ -> failwith "cleanup" in
       Some ((c, nm), k) in
-    { c_spec = { fbase = bytes_of_hex base; fdisc = opt_hex disc; fts = (ts = "1"); fsfx = opt_hex sfx };
+    { c_spec = { fbase = bytes_of_hex base; fdisc = opt_hex disc; fts = (ts = "1" || ((ts = "d" || ts = "D") && rot = None)); fsfx = opt_hex sfx };
       c_append = (app = "1");
       c_cap = (if cap = "~" || cap.[0] = 'a' then None else Some (nat_of_int (int_of_string cap)));
       c_async = (cap <> "~" && cap.[0] = 'a'); c_start = None;
